@@ -114,11 +114,14 @@ def parse_output(stdout):
         elif ln.startswith("INIT ") and segments:
             segments[-1]["init"] = ln[5:]
         elif ln.startswith("BEGIN "):
-            cur = {"id": int(ln[6:]), "status": None, "rows": [], "retrievals": [], "failed_retrieval": None, "segment": seg}
+            cur = {"id": int(ln[6:]), "status": None, "rows": [], "retrievals": [], "sizes": {}, "failed_retrieval": None, "segment": seg}
         elif cur is not None and ln.startswith("ROW "):
             cur["rows"].append(ln[4:])
         elif cur is not None and ln.startswith("RETRIEVE "):
             cur["retrievals"].append(ln.split(" ", 2)[2])
+        elif cur is not None and ln.startswith("DELIVERED "):
+            key, sz = ln[10:].rsplit(" size=", 1)
+            cur["sizes"][key] = int(sz)
         elif cur is not None and ln.startswith("FAILED-RETRIEVAL "):
             cur["failed_retrieval"] = int(ln.split()[1])
         elif cur is not None and ln.startswith("END "):
